@@ -431,6 +431,21 @@ theorem octaRow_entry (t : OctaT) (hwf : t.WF) (row : Bytes) (h : octaRowOK t ro
   obtain ⟨g, c⟩ := Octa.intVecToCoords_inGrid_canonical t hwf _ hs
   exact ⟨_, _, rfl, g, c⟩
 
+theorem octaEntry_of_ok (t : OctaT) (e : List Int) (h : octaEntryOK t e = true) : OctaEntry t e := by
+  unfold octaEntryOK at h
+  split at h
+  · rename_i a b
+    simp only [Bool.and_eq_true, decide_eq_true_eq] at h
+    exact ⟨a, b, rfl, h.1, h.2⟩
+  · cases h
+
+/-- the float oracle hypothesis `octaRowOK` implies the output-level hypothesis -/
+theorem octaEntryOK_of_rowOK (t : OctaT) (hwf : t.WF) (row : Bytes) (h : octaRowOK t row = true) :
+    octaEntryOK t (octaRow t row) = true := by
+  obtain ⟨a, b, he, hg, hc⟩ := octaRow_entry t hwf row h
+  rw [he]
+  simp [octaEntryOK, hg, hc]
+
 theorem entriesOf_flatten (nc : Nat) (hnc : 0 < nc) : ∀ (ls : List (List Int)) (fuel : Nat),
     (∀ e ∈ ls, e.length = nc) → ls.length ≤ fuel → entriesOf nc fuel ls.flatten = ls := by
   intro ls
@@ -450,7 +465,7 @@ theorem entriesOf_flatten (nc : Nat) (hnc : 0 < nc) : ∀ (ls : List (List Int))
       rw [List.take_left' hl, List.drop_left' hl, ih f (fun x hx => h x (by simp [hx])) (by simpa using hf)]
 
 theorem octaPortable_spec (t : OctaT) (hwf : t.WF) (rows : List Bytes)
-    (hok : ∀ r ∈ rows, octaRowOK t r = true) :
+    (hok : ∀ r ∈ rows, octaEntryOK t (octaRow t r) = true) :
     (octaPortable t rows).length = rows.length * 2 ∧
       (∀ x ∈ octaPortable t rows, -2 ^ 31 ≤ x ∧ x < 2 ^ 31) ∧
       ∀ e ∈ entriesOf 2 (octaPortable t rows).length (octaPortable t rows), OctaEntry t e := by
@@ -458,7 +473,7 @@ theorem octaPortable_spec (t : OctaT) (hwf : t.WF) (rows : List Bytes)
     intro e he
     simp only [List.mem_map] at he
     obtain ⟨r, hr, rfl⟩ := he
-    exact octaRow_entry t hwf r (hok r hr)
+    exact octaEntry_of_ok t _ (hok r hr)
   have hlen2 : ∀ e ∈ rows.map (octaRow t), e.length = 2 := by
     intro e he
     obtain ⟨a, b, rfl, _, _⟩ := hent e he
